@@ -201,10 +201,45 @@ def r3(run):
                    "a valid definition is inserted under its (context, name) key, replacing the previous one", reason="stale-definition")
 
 
+def r6(run):
+    """Replay registers EVERY historical .define in stream order (no compaction): the definition in force after a restart is the
+    latest VALID one, exactly as it was while the server kept running."""
+    sv = c17.serve_body(run, MOD)
+    if sv is None:
+        run.missing(MOD + "::serve|body", "commands::serve not found")
+        return
+    replay, exits = F.replay_phase(sv)
+    if replay is None:
+        run.missing(MOD + "::serve|replay", "replay phase not found", sv.sp)
+        return
+    defs = [c for c in sv.calls() if c.bb in sv.live_blocks() and c.fn == MOD + "::handle_define"]
+    run.floor("handle_define call sites in commands::serve", len(defs), 2, sv.sp)
+    during = []
+    for c in defs:
+        src = [y[1] for y in walk(c.arg(0)) if y[0] == "call" and y[1].fn == C.MPSC_RECV]
+        direct = bool(src) and q.same_call(src[0], replay) and not any(y[0] == "call" and "hash::map::HashMap" in y[1].fn for y in walk(c.arg(0)))
+        if direct and not q.dominated(sv, c.bb, via_edges=exits):
+            during.append(c)
+    run.ob(MOD + "::serve|replay-registers-each-define", len(during) >= 1, sv.sp,
+           "during replay handle_define is called with the replayed frame itself (definitions are not compacted first): %d such call(s)" % len(during),
+           reason="definitions-compacted-before-validation")
+    edges = F.suffix_tests(sv, ".define")
+    for c in during:
+        mine = [e for e in edges if q.dominated(sv, c.bb, via_edges=[e])]
+        reach = sv.reachable_blocks([t for (_, t, _) in mine], removed_blocks=[c.bb]) if mine else {replay.bb}
+        run.ob(MOD + "::serve|replay-every-define-reaches-handle_define", bool(mine) and replay.bb not in reach, c.sp,
+               "from a replayed `.define` frame the next recv is reached only through handle_define", reason="definitions-compacted-before-validation")
+    # no other place builds Commands from stored frames
+    regs = C.callers_of(run.facts, MOD + "::register_command")
+    run.ob(MOD + "|single-registration-path", {run.facts.enclosing_fn(b) for (b, c) in regs} == {MOD + "::handle_define"}, "<commands>",
+           "commands are only compiled by handle_define (%s)" % sorted({run.facts.enclosing_fn(b) for (b, c) in regs}), reason="definitions-compacted-before-validation")
+
+
 RULES = [
     ("R-C19-1", "exactly one terminal event per call: Ok returns pass one of {.complete,.error}, nothing follows it; Err returns pass none and the dispatcher adds one .error", r1),
     ("R-C19-2", "every recv / complete / error frame carries command_id and frame_id in the caller's context; .append gets the same base meta", r2),
     ("R-C19-3", "each call runs on a fresh clone of the current definition; invalid definitions are reported, valid ones replace", r3),
+    ("R-C19-6", "replay registers every historical .define in order, so the latest VALID definition is in force after a restart", r6),
     ("R-C19-4", "calls are dispatched only after the replay phase (shared with R-C17-2)", c17.r2),
     ("R-C19-5", "registry keyed by (context, name): the latest definition of that key wins (shared with R-C17-1)", c17.r1),
 ]
